@@ -14,6 +14,9 @@ use serde_json::{json, Value as J};
 use std::hash::{Hash, Hasher};
 
 pub const TOKENS: &[&str] = &[
+    // a backslash before a raw control character, DEL and the first non-ASCII characters: the
+    // default arm of the escape tables ("stands for itself") and its boundary at 0x7F / 0x80
+    "?\\\x7f", "?\\\x01", "?\\\x1f", "?\\~", "?\\\u{80}", "?\\\u{ff}", "?\x7f", "?~", "\"\\\x7f\"", "\"a\\\x7fb\"", "\"\\~\"", "\"\\\u{80}\"", "#\\\x7f", "#\\~", "#\\\u{80}",
     // digit-initial and number near misses
     "1", "12", "1+", "1-", "1/2", "1.5.6", "0x10", "12ab", "1e3", "1e", "1.", "1.5", "1.5e", "1.5e+", "1.5e3", "1x", "1a", "9a9", "1:", "1e3x", "007", "1_000", "2020-01-01", "1..2",
     "+5", "-5", "+", "-", "...", "-a", "+a", "--", "->", "+-", ".a", "..", "+.5", "-.5", ".5", "+.", "-.", "+.a", "-.a", "+..", "+5x", "-1a", "+1.", "-1e", "+e", "-e5", "1e5", "1E5", "1e+5", "1e-5", "-0", "+0", "0",
